@@ -1,6 +1,7 @@
 package gqlty
 
 import (
+	"encoding/base64"
 	"encoding/json"
 	"fmt"
 	"sort"
@@ -210,6 +211,11 @@ func (c *Conformer) Value(ref *IRef, ss *ast.SelectionSet, v interface{}, path s
 		}
 		if got := jsonKind(v); got != want {
 			c.fail("scalar-kind", path, fmt.Sprintf("%s for scalar %s (want %s)", got, t.Name, want))
+		} else if t.Name == "bytes" {
+			// the scalar bytes is the base64 text of a byte string
+			if _, err := base64.StdEncoding.DecodeString(v.(string)); err != nil {
+				c.fail("bytes-not-base64", path, fmt.Sprintf("%q", v))
+			}
 		}
 	case "ENUM":
 		s, ok := v.(string)
